@@ -17,7 +17,13 @@ fn gen_image(t: &mut Tape, colors: &[[u8; 3]]) -> RgbaImage {
     };
     let mode = t.below(4);
     let mut r = Rng(t.raw64());
-    let mut img = RgbaImage::new(w, h);
+    // a quarter of the images own a container with spare bytes after the last pixel (legal via from_raw)
+    let slack = if t.chance(1, 4) { 4 * (1 + t.below(3 * w.max(1))) as usize } else { 0 };
+    let mut raw = vec![0u8; (w * h * 4) as usize + slack];
+    for (i, b) in raw.iter_mut().enumerate().skip((w * h * 4) as usize) {
+        *b = 0xA0 ^ i as u8;
+    }
+    let mut img = RgbaImage::from_raw(w, h, raw).expect("from_raw");
     for p in img.pixels_mut() {
         let a = match mode {
             0 => 255,
